@@ -770,9 +770,14 @@ func scanFields(buf []byte, i int) (int, []byte, error) {
 			break
 		}
 
-		// escaped characters?
+		// escaped characters? Outside of a quoted string a backslash escapes the
+		// next byte even if it is itself preceded by a backslash (as in scanTo).
 		if buf[i] == '\\' && i+1 < len(buf) {
-			i += 2
+			if !quoted && buf[i+1] == '\\' {
+				i++
+			} else {
+				i += 2
+			}
 			continue
 		}
 
